@@ -177,7 +177,9 @@ fn g_ops(plan: &Value, tno: u64, ops: &[Value], log: &GLog, hist: &History, rts:
                 let r = ju(op, "rt", 0) as usize % rts.len().max(1);
                 let sink = BoxEntrySink::new(Dest { no: dest, log: log.clone() });
                 let handle = rts[r].handle().clone();
-                match catch(|| with_global!(g, G => G::set_test_sink_for_tokio_runtime(&handle, sink))) {
+                // inside that very runtime's context the "current runtime" form is equivalent
+                let on_current = ts.rt_enter.as_ref().map(|(cur, _)| *cur == r as u64).unwrap_or(false);
+                match catch(|| with_global!(g, G => if on_current { G::set_test_sink_on_current_tokio_runtime(sink) } else { G::set_test_sink_for_tokio_runtime(&handle, sink) })) {
                     Ok(guard) => {
                         ctl.lock().unwrap().rt_guard.insert((g, r as u64), guard);
                         "ok".into()
